@@ -4,3 +4,6 @@ register_simp_attr kvsimp
 
 /-- lemmas `(f w ..).tv = w.tv`: code that writes nothing to the trace (see `Lemmas/TView.lean`) -/
 register_simp_attr tvsimp
+
+/-- lemmas `(f w ..).pending = w.pending` (see `Lemmas/PView.lean`) -/
+register_simp_attr pvsimp
